@@ -334,8 +334,11 @@ class C19(fw.Check):
             'pandas-columns -> application/json (the format=pandas-* decoders are attempted and counted as unusable when '
             'pandas.read_json refuses a literal string); typed tables (int / float / text / bool columns with missing cells, empty, '
             'numeric-, marker- and boolean-looking texts, blanks-only cells, carriage returns, quotes / commas / line feeds in cells '
-            'and names, columns called instances / inputs, floats of 11..14 decimals, no rows) against the verdict and the text/csv '
-            'text of the Lean table model; sequences of 2..6 payloads decoded by one process (equal column types under different '
+            'and names, columns called instances / inputs, floats of 11..14 decimals, no rows; row counts 9|10|11|12, 99|100|101, ~250 and column '
+            'counts 10..12 sampled in the quick tier - 0..1001 rows, 9..25 columns swept in the thorough tier - with a row-numbering '
+            'first column and numeric column labels) against the verdict and the text/csv text of the Lean table model; client-written '
+            'columns-layout documents (default / reversed / shuffled / string / offset / padded row labels, 1..101 rows) through the plain '
+            'JSON decoder against the model (document order); sequences of 2..6 payloads decoded by one process (equal column types under different '
             'names, permuted columns, empty frames before / after their columns are cached, object columns with None) against the '
             'Lean schema-cache machine; the read_csv tokeniser and type inference of the model against pandas.  Oracle on the real '
             'code: order = sort by (-q, position) of the generated ranges; match = own wildcard matcher + option subset; encoder = any '
@@ -1173,6 +1176,7 @@ class C19(fw.Check):
             raise fw.MachineryError('no codec pair is usable in this environment')
         self._json_precision()
         self._typed_roundtrip(pairs, usable)
+        self._columns_documents()
         self._schema_cache()
         self._pandas_fidelity()
         # the unquoted CSV slice against the Lean token model (text and cells)
@@ -1196,15 +1200,22 @@ class C19(fw.Check):
     T_TYPED = TYPED_TEXT + ['', '', ' 12', '13 ', '\t7', 'Infinity', '-inf', 'TRUE', 'False', '+5', '.5', '3.', '1E3', '1e-3', '<NA>', '#N/A', 'NULL',
                             'NaN', '-nan', 'n/a', '00', '-0', '1.#IND']
 
-    def _typed_table(self, flavour: str):
+    def _typed_table(self, flavour: str, nrows: typing.Optional[int] = None, ncol: typing.Optional[int] = None):
         """(names, kinds, rows, cells for the model): integer / float / text / boolean columns with missing cells.
-        flavour: plain | typed-text | blank | cr | sniffed | fine-float | empty"""
+        flavour: plain | typed-text | blank | cr | sniffed | fine-float | empty | null-bool | sized (row / column counts given: the
+        first column then numbers the rows so that any permutation of rows shows; numeric column names for some wide tables)"""
         rng = self.rng
-        ncol = 1 if flavour == 'blank' else rng.randint(1, 4)
+        if ncol is None:
+            ncol = 1 if flavour == 'blank' else rng.randint(1, 4)
         self._table_serial = getattr(self, '_table_serial', 0) + 1
         # a suffix of their own keeps most tables away from what the schema cache of this process already holds
-        pool = list(self.T_NAMES) if rng.random() < 0.3 and flavour not in ('empty', 'null-bool') else [f'{n}_{self._table_serial}' for n in self.T_NAMES]
+        base = list(self.T_NAMES) + [f'c{j}' for j in range(max(0, ncol - len(self.T_NAMES)))]
+        pool = list(base) if rng.random() < 0.3 and flavour not in ('empty', 'null-bool') else [f'{n}_{self._table_serial}' for n in base]
         names = rng.sample(pool, ncol)
+        if flavour == 'sized' and ncol >= 9 and rng.random() < 0.5:  # column labels '0', '1', ..., '10', ...: in order or shuffled
+            names = [str(j) for j in range(ncol)]
+            if rng.random() < 0.4:
+                rng.shuffle(names)
         if flavour == 'sniffed':
             names[rng.randrange(ncol)] = rng.choice(['instances', 'inputs'])
         if flavour == 'cr' and rng.random() < 0.2:
@@ -1216,13 +1227,20 @@ class C19(fw.Check):
             kinds[0] = 'float'
         if flavour == 'null-bool' and 'bool' not in kinds:
             kinds[0] = 'bool'
-        nrows = 0 if flavour == 'empty' else rng.randint(1, 5)
+        if flavour == 'sized':
+            kinds[0] = rng.choice(['int', 'str'])
+        if nrows is None:
+            nrows = 0 if flavour == 'empty' else rng.randint(1, 5)
         cols, model_cols = [], []
         special = kinds.index('str') if 'str' in kinds else None
         for j, kd in enumerate(kinds):
             cells, mcells = [], []
             whole = rng.random() < 0.6
             for i in range(nrows):
+                if flavour == 'sized' and j == 0:  # the row's own number, as a number or as a text
+                    cells.append(i if kd == 'int' else f'r{i}')
+                    mcells.append(['i', i] if kd == 'int' else ['t', f'r{i}'])
+                    continue
                 if rng.random() < (0.4 if flavour == 'null-bool' else 0.12) and (kd != 'bool' or flavour == 'null-bool'):
                     cells.append(None)
                     mcells.append('null')
@@ -1286,6 +1304,17 @@ class C19(fw.Check):
         for _ in range(self.n(300, 3000)):
             fl = self.rng.choice(flavours)
             tables.append((fl,) + self._typed_table(fl))
+        # table sizes across the decimal-digit boundaries of the row / column labels ('9' | '10', '99' | '100'): sampled in the
+        # quick tier, swept in the thorough one
+        row_sizes = [9, 10, 11, 11, 12, 12, self.rng.choice([13, 20, 31]), 99, 100, 101, self.rng.choice([110, 250])] if self.quick else \
+            [n for n in (0, 1, 2, 9, 10, 11, 12, 13, 19, 20, 21, 99, 100, 101, 102, 110, 111, 250, 1000, 1001) for _ in range(4)]
+        col_sizes = [10, 11, 11, 12, 12] if self.quick else [n for n in (9, 10, 11, 12, 13, 20, 21, 25) for _ in range(4)]
+        if self.escalation > 1:
+            row_sizes, col_sizes = row_sizes * 2, col_sizes * 2
+        for n in row_sizes:
+            tables.append((f'sized rows={n}',) + self._typed_table('sized', nrows=n, ncol=self.rng.randint(1, 3)))
+        for n in col_sizes:
+            tables.append((f'sized cols={n}',) + self._typed_table('sized', nrows=self.rng.choice([1, 2, 3, 11]), ncol=n))
         # the JSON pairs first: a text/csv decode of the same columns would teach the schema cache what the JSON frames need (C19-F6)
         todo = sorted([(label, ei, dec) for label, ei, dec in pairs if label in self.PAIR_OPS and usable.get(label)], key=lambda t: t[0] == 'text/csv;')
         lines = [sexp.dumps(['table', self.PAIR_OPS[label], mcols]) for _, _, _, _, mcols in tables for label, _, _ in todo]
@@ -1316,6 +1345,55 @@ class C19(fw.Check):
                     self._outside('round trip characterisation: the model says the table does not come back', case, status, m[1])
                 elif status == 'differs' and detail.get('cause') != self.VERDICT_CAUSE[m[1]]:
                     self._outside('round trip characterisation: cause', case, detail.get('cause'), m[1])
+
+    # ---- columns-layout documents of a client through the plain application/json decoder ------------------------------
+    def _columns_documents(self):
+        """{column: {row label: value}} documents as the pandas-columns encoder writes them (labels '0'..'n-1', n across the digit
+        boundaries) and as a client may write them (string, unsorted, numeric-looking labels): the decoded rows against the model,
+        where `from_dict` keeps the document order.  Labels other than the encoder's: fidelity note."""
+        import json
+        from forml.io import layout
+        rng = self.rng
+        sizes = [1, 2, 9, 10, 11, 12, 25, 100, 101] if self.quick else [1, 2, 3, 9, 10, 11, 12, 13, 20, 21, 99, 100, 101, 110, 250, 1001] * 3
+        docs = []
+        for serial, n in enumerate(sizes * 2):
+            style = 'default' if serial < len(sizes) else rng.choice(['reversed', 'shuffled', 'words', 'offset', 'padded'])
+            labels = [str(i) for i in range(n)]
+            if style == 'reversed':
+                labels.reverse()
+            elif style == 'shuffled':
+                rng.shuffle(labels)
+            elif style == 'words':
+                labels = [rng.choice('abcxyz') + str(rng.randint(0, 10 ** 6)) + f'_{i}' for i in range(n)]
+            elif style == 'offset':
+                labels = [str(i + 5) for i in range(n)]
+            elif style == 'padded':
+                labels = [f'{i:04d}' for i in range(n)]
+            ncol = rng.randint(1, 3)
+            names = [f'd{serial}_{j}' for j in range(ncol)]
+            cols = []
+            for j in range(ncol):
+                text = j > 0 and rng.random() < 0.5
+                cols.append([f'v{i}' if text else i * (j + 1) for i in range(n)])
+            docs.append((style, names, labels, cols))
+        lines = [sexp.dumps(['columnsdoc', [[nm, [[lb, ['t', v] if isinstance(v, str) else ['i', v]] for lb, v in zip(labels, col)]]
+                                            for nm, col in zip(names, cols)]]) for _, names, labels, cols in docs]
+        for (style, names, labels, cols), ans in zip(docs, self.model(lines)):
+            m = _loads(ans)
+            payload = json.dumps({nm: dict(zip(labels, col)) for nm, col in zip(names, cols)}).encode()
+            try:
+                entry = layout.get_decoder(layout.Encoding('application/json')).loads(payload)
+                got = ['ok', [f.name for f in entry.schema], [[self._plain(v) for v in r] for r in entry.data.to_rows()]]
+            except Exception as err:  # pylint: disable=broad-except
+                got = ['error', f'{type(err).__name__}: {err}'[:120]]
+            want = ['ok', [c[0] for c in m[1]], [[(c[1][i][1] if c[1][i][0] == 't' else int(c[1][i][1])) for c in m[1]] for i in range(len(labels))]] \
+                if isinstance(m, list) and m[0] == 'ok' else ['error', m]
+            self.case(('columnsdoc', style, len(labels), tuple(names)), f'columns document {style} rows={"<=10" if len(labels) <= 10 else ">10"}', nontrivial=True)
+            if got != want:
+                case = {'labels': labels[:14], 'rows': len(labels), 'names': names, 'style': style}
+                (self.diverge if style == 'default' else self._outside)('columns-layout document through the plain application/json decoder',
+                                                                       case, got if got[0] != 'ok' else [got[1], got[2][:14]],
+                                                                       want if want[0] != 'ok' else [want[1], want[2][:14]])
 
     # ---- the schema cache of Pandas.Schema.from_frame through one process ---------------------------------------------
     def _frame_of(self, payload: bytes, kind: str):
